@@ -37,14 +37,14 @@ class C12(Harness):
     op = 'satisfied'
     crates = ('control',)
     fuel = 120000
-    bounds = {'quick': {'shapes': [[1], [2], [1, 1]], 'pool': 2}, 'thorough': {'shapes': [[1], [2], [1, 1], [2, 1], [2, 2], [1, 1, 1], [3]], 'pool': 3}}
+    bounds = {'quick': {'shapes': [[1], [2], [1, 1]], 'pool': 2, 'spelled': [[1]]}, 'thorough': {'shapes': [[1], [2], [1, 1], [2, 1], [2, 2], [1, 1, 1], [3]], 'pool': 3, 'spelled': [[1], [2], [1, 1]]}}
     assumptions = ['fields: entries x alternatives in the shapes listed in bounds, package names from a pool of distinct names, every alternative unversioned or (op, v) with all five operators',
-                   'versions are single decimal digits 1..9 (symbolic), so that Debian version order coincides with digit order; installed map: every pool name absent or present with a symbolic digit version',
+                   'versions are single decimal digits 1..9 (symbolic), so that Debian version order coincides with digit order; installed map: every pool name absent or present with a symbolic digit version; in the "spelled" cases the installed version d is written d / 0:d / d-0 / 0d (equal under Debian ordering)',
                    'fields are built by parsing canonical text "a (>= 2) | b, c"; the lossless evaluator is called with a closure lookup (its API requires Copy), the lossy per-relation evaluator with closure, HashMap and (String, Version)']
 
     def cases(self, tier):
         b = self.bounds[tier]
-        return [{'shape': sh, 'pool': b['pool'], 'order': sum(sh)} for sh in b['shapes']]
+        return [{'shape': sh, 'pool': b['pool'], 'order': sum(sh)} for sh in b['shapes']] + [{'shape': sh, 'pool': b['pool'], 'spelled': True, 'order': sum(sh) + 1} for sh in b['spelled']]
 
     def run(self, e, case):
         pool = NAMES[:case['pool']]
@@ -66,8 +66,11 @@ class C12(Harness):
         installed = {}
         for nm in pool:
             if e.choose('inst', 2): installed[nm] = digit('i')
+        # how the installed versions are spelled: d / 0:d / d-0 / 0d denote the same Debian version
+        form = e.choose('spelling', 4) if case.get('spelled') else 0
+        def spell(c): return [[c], [48, 58, c], [c, 45, 48], [48, c]][form]
         s = Str(text)
-        e.inputs.update(s=s, installed={k: Str([v]) for k, v in installed.items()}, spec=[[[n, o, (Str([v]) if v is not None else None)] for n, o, v in alts] for alts in spec])
+        e.inputs.update(s=s, installed={k: Str(spell(v)) for k, v in installed.items()}, spec=[[[n, o, (Str([v]) if v is not None else None)] for n, o, v in alts] for alts in spec])
         # reference semantics (the statement's definition)
         def holds(nm, op, r):
             if nm not in installed: return False
@@ -76,7 +79,7 @@ class C12(Harness):
             return {'<<': i < r, '<=': i <= r, '=': i == r, '>=': i >= r, '>>': i > r}[op]
         want = b_and(*[b_or(*[holds(*a) for a in alts]) for alts in spec])
         # installed versions as values
-        def ver(c): return version_parse(e, Str([c]))
+        def ver(c): return version_parse(e, Str(spell(c)))
         def lookup_py(eng, name):
             n = eng.deref(name)
             for k, c in installed.items():
@@ -112,7 +115,7 @@ class C12(Harness):
         if nat.get('timeout'): return [('hang', 'native run does not terminate on %r' % w)]
         if 'crash' in nat: return [('crash', nat['crash'])]
         v = []
-        inst = {k: int(x) for k, x in w['installed'].items()}
+        inst = {k: int(x.split(':')[-1].split('-')[0]) for k, x in w['installed'].items()}
         def holds(a):
             nm, op, r = a
             if nm not in inst: return False
